@@ -1,22 +1,40 @@
 """Per-property configuration of the checks (sidecar modules, levels, trusted base)."""
 
 SIDECARS = [
-    'contracts.display_c',
-    'contracts.csv_c',
-    'contracts.table_c',
-    'contracts.vector_c',
     'contracts.typing_c',
     'contracts.typing_loops',
+    'contracts.vector_c',
+    'contracts.table_c',
+    'contracts.csv_c',
+    'contracts.display_c',
+    'contracts.tracker_c',
 ]
 
 TRUSTED_COMMON = [
-    'pyvc itself (AST->VC generator, /verif/pyvc): path-splitting symbolic executor; its encoding of the Python subset is cross-checked against CPython by axiom validation on every run',
+    'pyvc itself (AST->VC generator, /verif/pyvc): path-splitting symbolic executor; its encoding of the Python subset is cross-checked against CPython by axiom validation on every run and by the mutant self-test (selftest_mutants.py)',
     'z3 5.1 / cvc5 1.0.3 / z3 4.8.12 (SMT back ends)',
     'CPython semantics assumed: left-to-right evaluation, no monkey-patching of serif or builtins, single thread, no MemoryError/RecursionError, warnings filter not "error"',
-    'int is mathematical (exact for Python); float/complex/date values and their operators are uninterpreted (no IEEE reasoning)',
+    'int is mathematical (exact for Python); float/complex/date values and their operators are uninterpreted (no IEEE reasoning); scalar operator applications are assumed defined (the quantifier says "values for which Python itself defines the scalar operation")',
+    'Vector(...) construction sites use the constructor contract (tuple(values), explicit dtype or infer_dtype, name, row flag) for scalar elements; the joint __new__/__init__ body is not yet under its own proof',
 ]
 
+PYFRAME_TRUST = 'pyframe (provenance abstract interpreter, /verif/pyframe): its own soundness; the induction over histories that turns per-method obligations into "every reachable heap" is a paper argument (DESIGN.md section 4)'
+
 PROPS = {
+    'C01': {
+        'level': 'proof', 'extra': ['pyframe.effects'],
+        'explanation': 'Every attribute-store site and every Table storage site of vector.py/table.py is an obligation of the provenance analysis (frame / pure / fresh-column / check-first); storage is an immutable tuple replaced wholesale, so these obligations are what separates two handles. Vector.copy / __getitem__ value contracts (fresh result with the stated contents) are discharged by z3. The history monitor is the bounded cross-examination.',
+        'trusted': [PYFRAME_TRUST, 'tuple immutability; element objects that are themselves mutable are out of scope; deepcopy returns an independent vector'],
+    },
+    'C02': {
+        'level': 'exploration',
+        'explanation': 'Bounded only in this round: exhaustive operation sequences on tables up to 3x3 with a Rect / row-view monitor after every step. Table.__init__ / >> / << / T are not yet under a discharged contract (Table objects are not modelled by pyvc yet).',
+    },
+    'C03': {
+        'level': 'proof',
+        'explanation': 'Truthful(result) is proved at the explicit-dtype construction sites under contract (copy, __getitem__, comparisons, isna, dropna) from Truthful(self) with a quantified hypothesis; inferred-dtype sites (arithmetic, unary, reflected add) are proved to use infer_spec of their values, whose upper-bound property is the lemma infer-upper-bound / belongs-monotone. validate_scalar accepts exactly what belongs to the kind.',
+        'trusted': ['base domain (no subclasses of ladder types)', 'Truthful of inferred-dtype results: per-step lemmas are machine-checked, the induction over the fold is a paper step'],
+    },
     'C04': {
         'level': 'proof',
         'explanation': 'promote_with / infer_kind / validate_scalar are loop-free over a finite tag algebra (path enumeration + z3 is a decision procedure); infer_dtype is proved for every length through a loop invariant against an axiomatised fold; order independence follows from the commutation / absorption lemmas over the spec step function.',
@@ -24,12 +42,91 @@ PROPS = {
                     'permutation closure: adjacent transpositions generate all permutations (paper step on top of the machine-checked commutation lemma)'],
         'assumptions': ['extended domain (instances of subclasses of bool/int/float/date) is not covered by the proof'],
     },
-}
-
-MANIFEST_TEXT = {
-    'C04': {
-        'text': 'Proof: every obligation generated from the real bodies of DataType.promote_with, infer_kind, infer_dtype (loop invariant, all lengths), validate_scalar, with_nullable, is_numeric, is_temporal is discharged by z3 against contracts written from the lattice in the statement; order/length/multiplicity independence are lemmas over the spec step. A bounded exhaustive enumeration (all sequences <=4 over 13 types) is run as cross-examination and labelled bounded.',
-        'note': 'Trusted: pyvc encoding of the Python subset (validated against CPython on each run), SMT solvers, base domain (no subclasses of the ladder types), permutation closure from adjacent swaps.',
-        'technique': 'contract-based deductive verification: AST->VC symbolic execution of the real functions, loop invariant + lemmas, z3',
+    'C05': {
+        'level': 'proof',
+        'explanation': 'Generic-element VCs: for an arbitrary element pair the real body of _elementwise_operation, every arithmetic / reflected dunder, the reverse helpers, _unary_operation, MethodProxy.__call__ (method name symbolic) and every _String/_Date wrapper (enumerated from the class on each run) applies the stated operator to the i-th operands in written order, None propagating, lengths equal or ValueError. Table arithmetic and date + days are bounded only.',
+        'trusted': ['operators / element methods uninterpreted; * commutative on builtin scalars (for __rmul__)'],
+    },
+    'C06': {
+        'level': 'proof',
+        'explanation': 'None clauses of the element specs (arithmetic, comparison False at None) are part of the C05/C07 generic-element VCs; reductions sum/mean/min/max/stdev/any/all hand exactly the None-free subsequence to the builtin the statement names (filter-map equality, empty cases); isna/dropna contracts; group aggregators (C12) share the same spec functions. fillna and the _Date comparison override are bounded only.',
+        'trusted': ['sum/min/max/len builtins uninterpreted on sequence terms (congruence on extensionally equal arguments)', 'A-real: x**2 == x*x'],
+    },
+    'C07': {
+        'level': 'proof',
+        'explanation': 'slice_length equals len(range(n)[s]) for all integers including symbolic step; Vector.copy and __getitem__ (int, slice, bool-vector, bool-list keys) equal Python sequence semantics with dtype / name / row flag kept, IndexError / ValueError exactly when Python raises; the 12 comparison / logical dunders apply their own operator. Index-list keys and Table.__getitem__ (rows uniform, missing names, commutation) are bounded only.',
+        'trusted': ['slice.indices encoding (validated against CPython on a cube each run)'],
+    },
+    'C08': {
+        'level': 'exploration',
+        'explanation': 'validate_scalar (accept / reject decision per value) and slice_length are discharged by z3 (counted under C04/C07 evidence too); Vector.__setitem__ itself (index phase, multi-value decision, commit) is bounded only in this round: exhaustive key forms x value forms with list assignment as oracle and a snapshot comparison on every failure.',
+    },
+    'C09': {
+        'level': 'exploration',
+        'explanation': 'Bounded only in this round: all table pairs up to 3x3 (4x4 thorough) against the nested-loop definition, several hash seeds. The quantified index/probe loop invariants (DESIGN appendix A.3/A.4) are not yet discharged on the real loops.',
+    },
+    'C10': {
+        'level': 'exploration',
+        'explanation': 'Bounded only in this round (same enumerator as C09; left/full definitions, containment and symmetry relations).',
+    },
+    'C11': {
+        'level': 'proof',
+        'explanation': 'The uniqueness flags and the expect validation of inner_join / join / full_join are extracted by a mechanical statement slice (kept: the expect test and the two flag assignments; refused if they are not unconditional top-level assignments over `expect` only) and proved equal to the statement (complete 4x3 decision table plus rejection of every other string). That the flags are *used* to raise iff uniqueness fails is bounded (full decision table over all key multisets of size <=3).',
+        'trusted': ['statement slice: everything except the expect test and the flag assignments is dropped; use of the flags is covered by the bounded stand-in only'],
+    },
+    'C12': {
+        'level': 'proof',
+        'explanation': 'Each built-in aggregator body (two lambdas and four nested functions of Table.aggregate, extracted with their closures) equals its textbook spec on an arbitrary group; Vector.sum/mean/min/max/stdev equal the same spec functions (whole-column agreement by construction). The partition loop (first-appearance order, one row per key) and aggregate_col are bounded only.',
+        'trusted': ['sum/min/max/len uninterpreted; A-real'],
+    },
+    'C13': {
+        'level': 'proof',
+        'explanation': 'The six window aggregators equal the same spec functions as the aggregate ones (so window and aggregate values agree by construction of the proof); expansion back to rows and row order are bounded only (interleaved groups at 4 rows).',
+        'trusted': ['sum/min/max/len uninterpreted; A-real'],
+    },
+    'C14': {
+        'level': 'proof',
+        'explanation': 'Table.sort_by.key_fn (extracted nested function) returns (placement flag, value) with the flag of the statement; the lemma sort-none-placement shows that flag puts None last/first by na_last for both directions and that None is never compared with a value. Permutation / stability / lexicographic order rest on the trusted stable-sort contract and are cross-examined by the bounded stand-in; Vector.sort_by is bounded plus the same key lemma.',
+        'trusted': ['list.sort / sorted: stable, reverse=True keeps the order of equal keys (validated each run)'],
+    },
+    'C15': {
+        'level': 'proof', 'extra': ['pyframe.effects'],
+        'explanation': 'Store-protocol obligations, one per storage-swap site: unregister(self, id(old)) before and register(self, id(new)) after every store to _underlying of an initialised object; construction registers; __new__ never hands back an initialised object for re-initialisation; __setitem__ asks the tracker about the tuple it holds. The tracker methods themselves and GC / identity-reuse behaviour are bounded only (history monitor with a shadow sharing relation and an identity-reuse stress).',
+        'trusted': [PYFRAME_TRUST, 'A-id: id() is injective on live objects; weakref semantics', 'tracker method bodies (register / unregister / check_writable) are not under a discharged contract'],
+    },
+    'C16': {
+        'level': 'proof', 'extra': ['pyframe.effects'],
+        'explanation': 'Protocol obligations: the memo is dropped after every storage swap (or by every caller of a private helper that swaps), and Table.fingerprint does not return a memo that column writes cannot invalidate. The Horner loop and the sensitivity lemmas are not yet discharged; coherence along histories is bounded.',
+        'trusted': [PYFRAME_TRUST, 'hash() deterministic within a process'],
+    },
+    'C17': {
+        'level': 'proof', 'extra': ['pyframe.effects'],
+        'explanation': 'map-fresh obligations: every read of the accessor map is dominated by the wild-column refresh (per read site). Sanitisation language properties and resolution (getattr / item assignment / dir) are bounded only in this round.',
+        'trusted': [PYFRAME_TRUST],
+    },
+    'C18': {
+        'level': 'proof',
+        'explanation': 'The name argument of the construction sites under contract is part of the whole-view postconditions: arithmetic / comparison results unnamed, copy / slice / mask / unary keep the name; _resolve_binary_name equals the statement rule. Table-level propagation and aggregate/window output names are bounded only.',
+    },
+    'C19': {
+        'level': 'proof',
+        'explanation': '_infer_type equals the cell rule of the statement path by path (int()/float() acceptance uninterpreted and shared with the spec). Column assembly, padding, header modes and empty inputs are bounded (round trip through csv.writer).',
+        'trusted': ['csv.reader (lexical layer) - the statement defines it as the csv module does'],
+    },
+    'C20': {
+        'level': 'proof',
+        'explanation': '_format_column never raises for truthful columns (int(float) partial on nan/inf is modelled) and shows every row of short data and exactly 2*half+1 rows of long data for every preview size incl. 0. Footer text, headers and table assembly are bounded only.',
+        'trusted': ['formatting of builtin scalars (f-strings, str, isoformat) does not raise'],
     },
 }
+
+_T = 'contract-based deductive verification: AST->VC symbolic execution of the real functions against sidecar contracts, z3/cvc5'
+_B = 'bounded exhaustive enumeration against an oracle written from the statement (stand-in; contracts on this property are not yet discharged)'
+MANIFEST_TEXT = {}
+for _p, _cfg in PROPS.items():
+    MANIFEST_TEXT[_p] = {
+        'text': _cfg['explanation'] + (' A bounded exhaustive stand-in (same spec functions run natively) is run as cross-examination and labelled bounded.' if _cfg['level'] == 'proof' else ''),
+        'note': 'Trusted: ' + '; '.join(_cfg.get('trusted', []) + ['pyvc encoding (validated against CPython each run)', 'SMT solvers']) if _cfg['level'] == 'proof'
+                else 'Bounded: exhaustive within the stated scope only; nothing is claimed beyond it.',
+        'technique': (_T + ('; pyframe provenance/protocol obligations' if _cfg.get('extra') else '')) if _cfg['level'] == 'proof' else _B,
+    }
